@@ -76,9 +76,19 @@ T = {
               "first reported as a harness error only (the real eigh differs from the harness's matrix at the replay), a VIOLATION after the eigh environment was imposed on the float replay as well"),
  (4, "C04"): ("planar_moments_inertia takes abs of the per-edge weights of I_xy", "polygon not star-shaped from the origin (off-origin or U-shaped)", ["C04"], ""),
  (4, "C05"): ("ConvexPolyhedron.is_inside accepts isclose(n.x, -d) with rtol relative to the plane offset", "query point just outside a face, within 1e-5 |d|", ["C05"], ""),
+ (4, "C06"): ("Polygon.is_inside caches the aligned vertices and rotation, keyed on the identity of the vertex array that mutators update in place", "query, then move / resize the polygon, then query again", ["C03"],
+              "not visible to C06 (fresh polygon per query): it is C03's clause (stored quantity lagging behind); first missed there too, caught after containment became a C03 observable with observe-then-mutate histories for polygons"),
  (4, "C07"): ("merge_faces compares normals up to sign but offsets without it: oppositely oriented coplanar neighbours are not merged", "mixed-orientation triangulated input, face plane off the origin", ["C07"], ""),
+ (4, "C08"): ("ConvexPolyhedron._rescale guard 'not scale > 0' rewritten as 'scale <= 0': NaN factors pass", "negative surface_area target (sqrt of a negative) or a NaN target", ["C08"], ""),
  (4, "C09"): ("Polygon.is_inside rotates the query points with R instead of R^T", "polygon in a tilted plane with a non-symmetric alignment rotation", ["C09"],
               "first 'unreproduced' (at the path's sample the float code is right by coincidence), caught after a violated claim was given up to two more witnesses far from the first"),
+ (4, "C10"): ("Ellipse.eccentricity becomes a cached_property: stale after a = / b =", "read eccentricity / perimeter / iq, assign a or b, read again", ["C08"],
+              "first missed (C10 constructs and reads; C08 only looked at the raw parameters), caught after C08 compared every getter of a curved shape with a freshly built one after each setter"),
+ (4, "C11"): ("spheropolyhedron wedge angles from arcsin(|n_i x n_j|): wrong for acute dihedrals", "core with a dihedral angle below 90 degrees and r > 0", ["C11"],
+              "first a silent pass: np.arcsin was missing from the shim and the model-only exception counted as 'unreproduced'; now arcsin is modelled (pi/2 - arccos) and a model-only exception is a harness error"),
+ (4, "C12"): ("Polygon.__init__ stores the caller's normal un-normalised", "explicit normal of length != 1, then a form factor", ["C15"], "caught by C15 'normal = requested' (unit); C12's polygons use default normals"),
+ (4, "C13"): ("Ellipsoid.maximal_bounded_sphere uses min(a, b)", "c strictly smallest", ["C13"], ""),
+ (4, "C14"): ("spheropolygon: |v12| taken as roll(|v32|, -1) instead of roll(.., 1)", "core whose edge-length sequence is not invariant under a shift by two", ["C14"], ""),
 }
 for (wave, pid), (what, needs, checks, note) in sorted(T.items()):
     d = os.path.join(ROOT, "seeded%d" % wave, pid)
